@@ -54,7 +54,7 @@ Section Abs.
   (* wf_frag only looks at the data files and the deletion file *)
   Lemma wf_frag_ext : forall a b, f_files a = f_files b -> f_del a = f_del b -> wf_frag a -> wf_frag b.
   Proof.
-    intros a b Ef Ed [H1 [H2 H3]]. unfold Proofs_TxnFrame.wf_frag, dels_of, Model_Txn.frag_rows in *.
+    intros a b Ef Ed [H2 H3]. unfold Proofs_TxnFrame.wf_frag, dels_of, Model_Txn.frag_rows in *.
     rewrite <- Ef, <- Ed. auto.
   Qed.
   Lemma flive_ext : forall a b o, f_files a = f_files b -> f_del a = f_del b -> flive a o = flive b o.
